@@ -161,6 +161,24 @@ func runC05(c *core.Ctx) {
 			c05Check(c, pool, sp, src, st)
 		}
 	}
+	// 2b. scalable families at boundary sizes (label length 999, 9-digit numbers, 32 parentheses, powers of two ...)
+	k := 0
+	for fi, fam := range wl.DeepFamilies {
+		for _, n := range wl.BoundarySizes {
+			// the nesting families are quadratic or worse: they stay small here (C01 runs them large, one at a time)
+			if fi < wl.FirstLimitFamily && n > 257 {
+				continue
+			}
+			for e := 0; e < cfg.NExt; e++ {
+				k++
+				if !c.Mine(k) {
+					continue
+				}
+				c05Check(c, pool, specs[e*4+(k/7)%4], fam.Gen(n), st)
+				c.Count("family_cases", 1)
+			}
+		}
+	}
 	// 3. soup / corpus / mutants
 	n3 := c.PerShard(c.N(150000, 5000000))
 	for i := 0; i < n3; i++ {
